@@ -479,11 +479,20 @@ def build_evidence(pid, P, tier, seed, wall, units, unit_results, canary_results
     }
     if stability is not None:
         cov['stability_runs'] = stability
+    level = P.get('level', 'proof')
+    if level == 'proof' and (obligations == 0 or discharged != obligations):
+        # this run did not discharge everything (violation or undecided): do not claim proof level for it
+        level = 'other'
+        cov['explanation'] = ('this run did NOT establish the property: %d of %d obligations discharged; undecided: %s; violations: %s'
+                              % (discharged, obligations, '; '.join(undecided)[:500] or 'none',
+                                 ', '.join(sorted(set(ob for ob, _ in violations))) or 'none'))
+    if not cov.get('explanation'):
+        cov['explanation'] = P.get('level_text', '')[:600]
     return {
         'property_id': pid,
         'tier': tier,
         'seed': seed,
-        'level': P.get('level', 'proof'),
+        'level': level,
         'coverage': cov,
         'assumptions': P.get('assumptions', []) + ['see coverage.trusted_base'],
         'wall_s': round(wall, 2),
